@@ -216,6 +216,10 @@ func buildTraversal(root string, steps []TravStep) hcl.Traversal {
 			t = append(t, hcl.TraverseIndex{Key: cty.StringVal(*st.Str)})
 		case st.Num != nil:
 			t = append(t, hcl.TraverseIndex{Key: cty.NumberIntVal(*st.Num)})
+		case st.Bool != nil:
+			t = append(t, hcl.TraverseIndex{Key: cty.BoolVal(*st.Bool)})
+		case st.Null:
+			t = append(t, hcl.TraverseIndex{Key: cty.NullVal(cty.DynamicPseudoType)})
 		default:
 			t = append(t, hcl.TraverseAttr{Name: st.Attr})
 		}
